@@ -368,6 +368,14 @@ async fn node_for(root: &dyn WritableZoneNode, owner: &str, h: &mut Hist) -> Opt
     Some(node)
 }
 
+type WriterFuture = Pin<Box<dyn Future<Output = Box<dyn WritableZone>> + Send + Sync>>;
+
+thread_local! {
+    /// A `Zone::write()` future that was polled while the previous batch's
+    /// writer held the handle; the next low-level batch continues it.
+    static QUEUED_WRITER: std::cell::RefCell<Option<WriterFuture>> = const { std::cell::RefCell::new(None) };
+}
+
 /// One update batch through the low-level interface or the ZoneUpdater.
 async fn batch(zone: &Zone, c: &mut Content, h: &mut Hist, names: &[String], specials_via_write: bool, clean: bool, who: usize) {
     let via_updater = sim::chance("batch.via_updater", 1, 2);
@@ -429,7 +437,12 @@ async fn batch(zone: &Zone, c: &mut Content, h: &mut Hist, names: &[String], spe
         match sim::draw("batch.op", 10) {
             0..=4 => {
                 if let Some(r) = gen_legal_rec(&working, names, specials_via_write) {
-                    let exists = working.get(&(r.owner.clone(), r.rtype)).is_some_and(|(_, rds)| rds.contains(&canon_rdata(&r.owner, r.rtype, &r.rdata)));
+                    // (A record that is there already with another TTL is a
+                    // change: the RRset takes the TTL of what was added last.)
+                    let exists = working.get(&(r.owner.clone(), r.rtype)).is_some_and(|(ttl, rds)| *ttl == r.ttl && rds.contains(&canon_rdata(&r.owner, r.rtype, &r.rdata)));
+                    if !exists && working.get(&(r.owner.clone(), r.rtype)).is_some_and(|(_, rds)| rds.contains(&canon_rdata(&r.owner, r.rtype, &r.rdata))) {
+                        sim::stat("probe.ttl_only_change");
+                    }
                     let allowed = !clean || (ancestors_own(&working, &r.owner) && (!abort || owns(c, &r.owner)) && (owns(c, &r.owner) || ancestors_own(c, &r.owner)));
                     if !exists && allowed {
                         apply_add(&mut working, &r);
@@ -525,6 +538,8 @@ async fn batch(zone: &Zone, c: &mut Content, h: &mut Hist, names: &[String], spe
         h.written_rrsets.insert((r.owner.clone(), r.rtype));
     };
     if via_updater {
+        // (A writer queued by the previous batch would be served first.)
+        QUEUED_WRITER.with(|q| q.borrow_mut().take());
         let mut up: ZoneUpdater<StoredName> = ZoneUpdater::new(zone.clone()).await.expect("updater");
         for op in &ops {
             match op {
@@ -596,7 +611,23 @@ async fn batch(zone: &Zone, c: &mut Content, h: &mut Hist, names: &[String], spe
         apply_add(&mut working, &new_soa);
         up.apply(ZoneUpdate::Finished(new_soa.record())).await.expect("finish");
     } else {
-        let mut w: Box<dyn WritableZone> = zone.write().await;
+        let queued = QUEUED_WRITER.with(|q| q.borrow_mut().take());
+        let mut w: Box<dyn WritableZone> = match queued {
+            Some(f) => f.await,
+            None => zone.write().await,
+        };
+        // Now and then the next writer already asks for the handle while
+        // this one holds it (polled once: it has to wait its turn).
+        if sim::chance("batch.next_writer_queues", 1, 5) {
+            let mut f = zone.write();
+            let mut cx = std::task::Context::from_waker(futures_util::task::noop_waker_ref());
+            if f.as_mut().poll(&mut cx).is_ready() {
+                sim::violation(P8, "write-interface", "two-writers-hold-the-zone".to_string(), "a second write handle was handed out while the first is held".to_string());
+                return;
+            }
+            sim::stat("probe.next_writer_queued_behind_this_one");
+            QUEUED_WRITER.with(|q| *q.borrow_mut() = Some(f));
+        }
         let mut root = w.open(sim::chance("batch.diff", 1, 2)).await.expect("open");
         // Apply through RRset replacement, tracking the evolving content.
         let mut cur = c.clone();
@@ -918,6 +949,7 @@ async fn run(_tier: Tier) {
             return;
         }
     }
+    QUEUED_WRITER.with(|q| q.borrow_mut().take());
     // ---- checks
     let hist_reader = zone.read();
     // The walk must list exactly the content (also guards the model).
